@@ -9,6 +9,11 @@ import (
 func C14_Channel[T signal.SignalTypes]() {
 	C, K := shape()
 	base := allocAny[T](C, K, "base")
+	if vf.Pick("earlier-view", 0, 1) == 1 {
+		// history: a channel view of the larger buffer was taken before the window was cut
+		ev := base.Channel(vf.Pick("ec", 0, C-1))
+		vf.Assert("earlier-view-shape", ev.Length() == K && ev.Capacity() == K)
+	}
 	s, e := window("p", K)
 	parent := base.Slice(s, e)
 	c := vf.Pick("c", 0, C-1)
@@ -23,6 +28,8 @@ func C14_Channel[T signal.SignalTypes]() {
 	i := vf.IntRange("i", 0, e-s-1)
 	pos := C*(s+i) + c // position in the whole storage
 	vf.Assert("buffer-index", ch.BufferIndex(c, i) == parent.BufferIndex(c, i) && parent.BufferIndex(c, i) == C*i+c)
+	// the view has one channel: whatever channel argument a generic caller passes, index i is the parent's (c, i)
+	vf.Assert("buffer-index-any-channel-argument", ch.BufferIndex(vf.Pick("arg", 0, C-1), i) == C*i+c)
 	vf.Assert("reads-its-channel", vf.SameBits(ch.Sample(i), base.Sample(pos)))
 	k := vf.IntRange("k", 0, base.Len()-1)
 	before := base.Sample(k)
